@@ -28,8 +28,8 @@ func certHost(p *Path) string {
 func c07r1(r *R) {
 	th := r.method(mpkg+"/mitm", "Config", "TLSForHost")
 	var gc *ssa.Function
-	for _, lit := range th.AnonFuncs {
-		if len(lit.Params) == 1 && strings.HasSuffix(typeStr(lit.Params[0].Type()), "tls.ClientHelloInfo") {
+	for _, lit := range anonFuncs(th) {
+		if len(litParams(lit)) == 1 && strings.HasSuffix(typeStr(litParams(lit)[0].Type()), "tls.ClientHelloInfo") {
 			gc = lit
 		}
 	}
@@ -248,9 +248,9 @@ func c07r5(r *R) {
 	r.check(len(ps) == 3 && len(why) == 0, "Proxy.shouldMITM", sm.Pos(), "config required; filter decides when present", strings.Join(why, "; "))
 	cp := r.method(".", "HTTPProxy", "configureProxy")
 	found := false
-	for _, lit := range cp.AnonFuncs {
+	for _, lit := range anonFuncs(cp) {
 		lps, _ := enumPaths(lit, 8, 1)
-		if len(lit.Params) == 1 && len(lps) == 1 && strings.HasPrefix(lps[0].Ret[0], "invoke forwarder.Matcher.Match(^0.config.MITMDomains, (*net/url.URL).Hostname($0.URL))") {
+		if len(litParams(lit)) == 1 && len(lps) == 1 && strings.HasPrefix(lps[0].Ret[0], "invoke forwarder.Matcher.Match(^0.config.MITMDomains, (*net/url.URL).Hostname($0.URL))") {
 			found = true
 			// installed as the filter only when domains are configured
 			eachInstr(cp, func(ins ssa.Instruction) {
